@@ -1,9 +1,9 @@
 package main
 
 import (
-	"runtime"
 	"context"
 	"fmt"
+	"runtime"
 	"unsafe"
 
 	gobinlog "github.com/Breeze0806/gobinlog"
